@@ -56,14 +56,16 @@ def _r_legal(f):
     """R case: is the scripted peer's behaviour a legal handshake - GMSSL for the victims sg / sa / cg (ClientHello version
     0x0101), standard TLS with an RSA key exchange for st / ct - i.e. messages in the honest order, Finished after the one
     ChangeCipherSpec?  Coalescing handshake messages into one record is legal."""
-    victim, cfg, chv, packing = f[2], _kv(f[4]), f[5], f[6]
+    victim, cfg, chv, packing = f[2], _kv(f[4]), f[5], f[6].replace("CKXL+1", "CKXLp1").replace("CKXH+1", "CKXHp1")
     flights = packing.split("/")
     if len(flights) != 2:
         return False
     recs = [[r.split("+") for r in fl.split("|")] for fl in flights]
     if any("CCS" in r and len(r) > 1 for fl in recs for r in fl):
         return False
-    flat = [[m for r in fl for m in r] for fl in recs]
+    # CKXH+1 (a trailing byte after the SM2 ciphertext, handshake and inner length both one longer: CONSISTENT length fields) is
+    # the same ClientKeyExchange to the key agreement - sm2.CipherUnmarshal ignores bytes after the ASN.1 structure (observation)
+    flat = [["CKX" if m == "CKXHp1" else m for r in fl for m in r] for fl in recs]
     if victim in ("sg", "sa", "st"):
         if victim != "st" and chv != "0101":
             return False
@@ -83,7 +85,7 @@ def nontrivial(f):
 
 
 def classify(f, io):
-    k = f[0] + (":" + f[2] if f[0] in ("S", "H", "V", "VC", "R", "PM", "PW", "PE") else "")
+    k = f[0] + (":" + f[2] if f[0] in ("S", "H", "V", "VC", "VG", "R", "PM", "PW", "PE") else "")
     if f[0] == "PW":
         return k + ":wf" + f[4] + ":rt" + (io[-1] if io else "none")
     return k + ":" + (io[0] if io else "none")
@@ -129,8 +131,8 @@ def predicate(f, io):
         if (io[0] == "acc") != has_null:
             return False, "ClientHello with compression methods [%s] %s" % (f[5], "refused although it offers null compression" if has_null else "answered although it does not offer null compression")
         return True, ""
-    if op == "V":
-        # version gate, stated without the model: a ClientHello version that is not implemented is never answered with a
+    if op in ("V", "VG"):
+        # version gate, stated without the model (VG: the same with GetConfigForClient / GetCertificate set - they return nil): a ClientHello version that is not implemented is never answered with a
         # ServerHello; an answer carries an implemented version not above the offer (GMSSL 0x0101 only for an offer of 0x0101,
         # never from the TLS-only server) and one of the offered suites
         v, role, ss = int(f[3], 16), f[2], f[4]
